@@ -163,7 +163,8 @@ func runC04(r *Run) {
 				}
 			default:
 				// the clones slice: a make([]*Route, len(sub stack)) filled from copyRoute/addPrefixToRoute
-				if _, isMake := src.(*ssa.MakeSlice); isMake && dst.Low != nil && dst.High != nil {
+				isMake := dependsOn(src, func(v ssa.Value) bool { _, ok := v.(*ssa.MakeSlice); return ok }) != nil
+				if _, direct := src.(*ssa.MakeSlice); (direct || isMake) && dst.Low != nil && dst.High != nil {
 					roles[i] = "clones"
 				} else {
 					roles[i] = "?"
@@ -185,14 +186,23 @@ func runC04(r *Run) {
 				return false
 			}
 			ia, ok := st.Addr.(*ssa.IndexAddr)
-			return ok && loadOfField(ia.X, "App.stack") && st.Val == base
+			return ok && loadOfField(ia.X, "App.stack") && (st.Val == base || dependsOn(st.Val, func(v ssa.Value) bool { return v == base }) != nil)
 		}) {
 			stackStore = in
 		}
 		okStore := stackStore != nil
 		if okStore {
 			for _, c := range copies {
-				if !(c.Block() == stackStore.Block() && idxIn(c.Instr) < idxIn(stackStore) || c.Block() != stackStore.Block() && c.Block().Dominates(stackStore.Block())) {
+				if c.Instr.Parent() != stackStore.Parent() {
+					// the new stack is built in a helper and handed back: the copies must precede the helper's returns
+					for _, ri := range instrsWhereOne(c.Instr.Parent(), isReturn) {
+						if !(c.Block() == ri.Block() && idxIn(c.Instr) < idxIn(ri) || c.Block() != ri.Block() && dom(c.Block(), ri.Block())) {
+							okStore = false
+						}
+					}
+					continue
+				}
+				if !(c.Block() == stackStore.Block() && idxIn(c.Instr) < idxIn(stackStore) || c.Block() != stackStore.Block() && dom(c.Block(), stackStore.Block())) {
 					okStore = false
 				}
 			}
@@ -219,7 +229,7 @@ func runC04(r *Run) {
 					// guarded by !route.mount
 					for _, br := range branchesIn(f) {
 						if loadOfField(br.Info.Root, "Route.mount") {
-							if s, ok := br.truthSlot(false); ok && br.If.Block().Succs[s].Dominates(fr.Instr.Block()) {
+							if s, ok := br.truthSlot(false); ok && dom(br.If.Block().Succs[s], fr.Instr.Block()) {
 								posOK = true
 							}
 						}
